@@ -71,6 +71,7 @@ func runC13(c *Case) {
 		}
 	}
 	base := walk.Base(w.prefix)
+	w.st.PageSize = []int{0, 1, 2}[c.Index%3]
 	unmerged := len(walk.VersionNames(w.st.Snapshot(), base, "current"))
 	c.Distinct("unmerged_versions_at_open", fmt.Sprint(unmerged))
 	ro := OpenConn("ro")
